@@ -33,7 +33,11 @@ RULE = ("rows: Hypothesis draws an environment (fluence 1e2..1e16, Cd ratio in {
         "s2 t > 1e-3; distinct by (row, environment). samples: formulas of 1..4 atoms (natural elements, isotopes, "
         "ions, isotope ions, D, T) x both abundance functions; oracle = sum over atoms of mass fraction x abundance "
         "(abundances re-read from the embedded NIST table text / activation.dat) x activity(isotope); all non-trivial. "
-        "table: every parsed field of every row equals the independent reading. reuse: ONE Sample object receives 2..3 "
+        "table: every parsed field of every row equals the independent reading, every isotope serves exactly the rows of "
+        "the file, and the file agrees with itself: for all 92 'b'/'2n' rows the parent half-life equals the half-life of "
+        "the row that produces that parent (the line above, through 'b' rows), production and intermediate cross "
+        "sections equal that row's, value+unit half-life = hours column (rel 1e-5), one half-life per nuclide name "
+        "(pre-existing disagreements of the pinned table are listed in evidence, not asserted). reuse: ONE Sample object receives 2..3 "
         "consecutive calculate_activation calls (beam, exposure, rest times change; the two abundance functions "
         "alternate, starting with either) and after each call its activity must equal the independent expectation and "
         "the activity of a fresh Sample given the same call; ActivationEnvironment objects are shared between samples "
@@ -506,6 +510,13 @@ def task_table(ctx):
         ctx.violation("c14:table:rows", "table serves %d rows, activation.dat has %d" % (n, len(E.rows)), {"kind": "table"})
     ctx.extra["rows"] = len(E.rows)
     check_multiplicity(ctx, E)
+    # the table agrees with itself (parent half-life of 'b'/'2n' rows = half-life of the row that
+    # makes the parent, value+unit = hours column, one half-life per nuclide, ...)
+    bad, notes = ra.table_consistency(E.rows)
+    ctx.extra["preexisting_table_inconsistencies"] = notes
+    ctx.count("table-consistency:b-and-2n-rows", sum(1 for r in E.rows if r["reaction"] in ("b", "2n")))
+    for kind, msg in bad:
+        ctx.violation("c14:table:" + kind, msg, {"kind": "table"})
     for row in E.rows:
         iso = E.table[row["Z"]][row["A"]]
         ais = getattr(iso, "neutron_activation", None)
